@@ -16,7 +16,7 @@ PID = "C06"
 EXPLANATION = (
     "The solver chooses a script of k steps over {start a GET on host A or B (the caller reads the body and releases), "
     "peer answers the oldest unanswered request of a connection with a complete keep-alive response echoing that "
-    "request's path - optionally followed by surplus bytes (a second response / garbage), optionally truncated, "
+    "request's path - optionally followed by surplus bytes (a second response / garbage; also with the header block delivered first and body + surplus in one segment), optionally truncated, "
     "optionally with Connection: close -, peer sends an unsolicited complete response - or only the beginning of one - on an idle connection, peer closes "
     "the connection, caller cancels}. Every response delivered to a caller must echo that caller's own request path "
     "(or the call fails); a connection that saw surplus or unsolicited bytes, a truncated body, an error or a cancel must "
@@ -45,6 +45,7 @@ def history(ctx, k=5, first=(), hosts=("a", "b")):
 
     logging.disable(logging.CRITICAL)
     loop = install(VLoop())
+    greeting = ctx.flag("peer_greets_before_first_request")
     conns = []  # dict(proto, tr, host, answered, dead)
 
     class Conn(BaseConnector):
@@ -54,6 +55,10 @@ def history(ctx, k=5, first=(), hosts=("a", "b")):
             proto.connection_made(tr)
             conns.append({"proto": proto, "tr": tr, "host": req.url.host, "answered": 0, "tainted": None, "seen": 0,
                           "origin": f"{req.url.scheme}://{req.url.host}:{req.url.port}"})
+            if greeting and len(conns) == 1:
+                # the peer talks first: a complete response before any request has been written
+                proto.data_received(_resp(b"JUNK"))
+                conns[-1]["greeted"] = True
             return proto
 
     async def mk():
@@ -103,7 +108,8 @@ def history(ctx, k=5, first=(), hosts=("a", "b")):
                 call["checked"] = True
                 status, body = t.result()
                 if bytes(body) != call["path"].encode():
-                    return fail("response-of-another-exchange-delivered", got=bytes(body).decode("latin1"),
+                    why = ":peer-greets-before-first-request" if (greeting and bytes(body) == b"JUNK" and call is calls[0]) else ""
+                    return fail("response-of-another-exchange-delivered" + why, got=bytes(body).decode("latin1"),
                                 expected=call["path"])
         if loop.exc:
             return fail("loop-exception-handler-called", exc=str(loop.exc[0].get("exception")))
@@ -129,7 +135,8 @@ def history(ctx, k=5, first=(), hosts=("a", "b")):
                 enabled += [("peer-eof", j)]
                 continue
             if pending > 0:
-                enabled += [("answer", j), ("answer+surplus", j), ("answer-truncated", j), ("answer-close", j)]
+                enabled += [("answer", j), ("answer+surplus", j), ("answer-truncated", j), ("answer-close", j),
+                            ("answer-head-then-body+surplus", j)]
             else:
                 enabled += [("unsolicited", j), ("unsolicited-partial", j)]
             enabled += [("peer-eof", j)]
@@ -165,6 +172,14 @@ def history(ctx, k=5, first=(), hosts=("a", "b")):
             elif op[0] == "answer+surplus":
                 c["proto"].data_received(_resp(path) + _resp(b"JUNK"))
                 taint(c, "surplus-bytes-after-response")
+            elif op[0] == "answer-head-then-body+surplus":
+                # the header block first, then the body and a surplus response in one segment
+                full = _resp(path)
+                cut = full.index(b"\r\n\r\n") + 4
+                c["proto"].data_received(full[:cut])
+                loop.run_ready()
+                c["proto"].data_received(full[cut:] + _resp(b"JUNK"))
+                taint(c, "surplus-bytes-after-response:body-and-surplus-in-one-segment")
             else:
                 c["proto"].data_received(_resp(path)[:-1])
                 c["incomplete"] = True
@@ -260,4 +275,4 @@ REQUIRED_OUTCOMES = ("1req:1conn", "2req:1conn", "2req:2conn")
 
 def bounds(tier):
     return {"steps": "k=5 (quick) / 7; first step GET on host a, second each enabled operation (one job each)",
-            "requests": "up to 4 GETs on 2 hosts; one job with three endpoints that share a host name (http://a, http://a:81, https://a)", "time": "up to two advances of virtual time (10 s / 6 s) per history; keepalive_timeout 15 s", "peer": "answer / answer+surplus / truncated / Connection: close / unsolicited response (complete or partial) / EOF on any open connection; caller cancel"}
+            "requests": "up to 4 GETs on 2 hosts; one job with three endpoints that share a host name (http://a, http://a:81, https://a)", "time": "up to two advances of virtual time (10 s / 6 s) per history; keepalive_timeout 15 s", "peer": "optional greeting (a complete response before the first request) / answer / answer+surplus (one or two segments) / truncated / Connection: close / unsolicited response (complete or partial) / EOF on any open connection; caller cancel"}
